@@ -298,6 +298,66 @@ def chain_sym(src, rates):
     return symx.real(f"Z|{'/'.join(src)}|{','.join(str(r) for r in rates)}")
 
 
+class EdgeStatePlugin:
+    """state variables that live on edges (dynamic coupling operators): every state position that carries no declared
+    node variable must be the state of exactly one (edge, operator, variable) of the explicit model - decided by z3:
+    its emitted derivative equals that edge's differential equation with the position's own symbol standing for the
+    edge state.  Positions that match no edge of the explicit model (pairs with weight 0 in a Connectivity) are
+    counted; they cannot influence a node variable without breaking the node obligations."""
+
+    def __init__(self):
+        self.matched = {}
+        self.unmatched = []
+
+    def arg_overrides(self, c, binding, t_sym):
+        return {}
+
+    def after_run(self, ctx):
+        spec, res, tally = ctx.spec, ctx.res, ctx.tally
+        used = {p[0] for p in ctx.pos.values()}
+        aux = [j for j in range(ctx.ny) if j not in used]
+        cands = []
+        for i, e in enumerate(spec.edges):
+            if not e.template:
+                continue
+            for oname in spec.edge_tpls[e.template].ops:
+                for v, (kind, _) in spec.ops[oname].vars.items():
+                    if kind == 'state':
+                        cands.append((i, oname, v))
+        assign = {}
+        for j in aux:
+            for cand in cands:
+                if cand in assign:
+                    continue
+                hook = (lambda jj, cc: (lambda i, o, v: ctx.y_sym[jj] if (i, o, v) == cc else symx.real(f"ES|{i}|{o}|{v}")))(j, cand)
+                R = refsem.Ref(spec, refsem.SymDom(), ctx.P, ctx.Y, ctx.W, ctx.EP, edge_state=hook)
+                try:
+                    ref = R.edge_state_deriv(*cand)
+                except Exception as ex:   # noqa
+                    res['inconclusive'].append(dict(kind='spec', what=f"edge state reference: {ex}"))
+                    ctx.abort = True
+                    return
+                v, _ = decide.prove_equal(ctx.out[j], ref, pc=ctx.pc, tally=tally)
+                if v == 'unsat':
+                    assign[cand] = j
+                    ctx.y_names[j] = f"edge{cand[0]}/{cand[1]}/{cand[2]}"
+                    break
+            else:
+                self.unmatched.append(j)
+        missing = [c_ for c_ in cands if c_ not in assign]
+        self.matched = assign
+        res.setdefault('edge_states', dict(matched=len(assign), unmatched=len(self.unmatched), missing=len(missing)))
+        if missing:
+            e = spec.edges[missing[0][0]]
+            res['violations'].append(dict(kind='edge-state', what=f"no state position follows the differential equation of "
+                                          f"{missing[0][1]}/{missing[0][2]} on the edge {e.src} -> {e.tgt} "
+                                          f"({len(missing)} of {len(cands)} edge states unmatched; "
+                                          f"{len(self.unmatched)} auxiliary positions left over)"))
+            ctx.abort = True
+            return
+        ctx.edge_state = lambda i, o, v: ctx.y_sym[assign[(i, o, v)]]
+
+
 class Composite:
     """several plugins at once (e.g. ring buffers for delayed edges + history for past() terms under a fixed step)"""
 
